@@ -65,14 +65,14 @@ Print Assumptions C18_pass1_removes_anonymous.
 
 (* in pass 2 as invoked by remove_syntactic_sugar (on the output of pass 1) the
    `unreachable!()` of remove_tuple_from_expression and `rhe_values.remove(0)` never
-   fire, for every input: the only panic sites left in pass 2 are into_report on a
-   meta without file id and split_string *)
+   fire, for every input: the only panic site left in pass 2 is into_report on a
+   meta without file id *)
 Theorem C18_pass2_unreachable_never_fires : forall env lib body m stmts decls c v su s,
   remove_anonymous_from_statement env lib None body = DOk (Block m stmts, decls) ->
   separate_declarations decls [] [] [] = DOk (c, v, su) ->
   remove_tuples_from_statement
     (Block m ([InitializationBlock m VVar v] ++ su ++ [InitializationBlock m VComponent c] ++ stmts)) = DPanic s ->
-  s = site_report_file_id \/ s = site_split_at.
+  s = site_report_file_id.
 Proof. exact pass2_unreachable_never_fires. Qed.
 Print Assumptions C18_pass2_unreachable_never_fires.
 
